@@ -3,7 +3,7 @@
    the model is evaluated on the same value (and on the observed bytes). *)
 From Coq Require Import List Bool Arith ZArith NArith.
 From Coq.Strings Require Import Byte.
-From GR Require Import Base.Bytes Base.Res Codec.Schema Codec.Doc Codec.Escape Codec.Render Codec.Encode
+From GR Require Import Base.Bytes Base.Res Codec.Schema Codec.Doc Codec.Escape Codec.Render Codec.Encode Codec.Tracker Codec.Json Codec.Decode
   Gen.TablesCodec Gen.FamEnv.
 Import ListNotations.
 
@@ -14,6 +14,7 @@ Record case := {
   c_ty : ty;
   c_val : value;
   c_floats : list (bool * N * bytes);      (* the text Go's strconv prints for every float of the value (oracle) *)
+  c_parse : list (nat * bytes * option N); (* strconv.ParseFloat on every candidate text: mode (0: 64; 1: 32; 2: float32(64)), text, bits *)
   c_excl : list bytes;                     (* PathSpec directives of the writer/reader *)
   c_ignore : nat;                          (* leadingScopeToIgnore of the reader *)
   c_obs : list (enc_obs * dec_obs)         (* compact JSON, pretty JSON, header, path, query *)
@@ -51,15 +52,51 @@ Definition enc_agrees (m : res bytes) (o : enc_obs) : bool :=
   | _, EncOk _ => false
   end.
 
+Fixpoint lookup_parse (tbl : list (nat * bytes * option N)) (mode : nat) (t : bytes) : option N :=
+  match tbl with
+  | [] => None
+  | (m, x, b) :: r => if Nat.eqb m mode && bytes_eqb x t then b else lookup_parse r mode t
+  end.
+
+(* the matching reader run on the bytes the implementation produced *)
+Definition model_dec (c : case) (fmt : nat) (data : bytes) : dres :=
+  let pf := lookup_parse (c_parse c) in
+  let excl := new_pathspec (c_excl c) in
+  match fmt with
+  | 0 | 1 => decode_json fam_env v2_wildcard excl (c_ignore c) pf fuel0 (c_ty c) data
+  | 4 => decode_ror2 fam_env v2_wildcard ps_empty 0 pf (unescape true) v2_empty_string v2_list_prefix true fuel0 (Some [x70]) (c_ty c) data
+  | _ => decode_ror2 fam_env v2_wildcard excl (c_ignore c) pf (unescape false) v2_empty_string v2_list_prefix false fuel0 None (c_ty c) data
+  end.
+
+Fixpoint bytes_list_eqb (a b : list bytes) : bool :=
+  match a, b with [], [] => true | x :: a', y :: b' => bytes_eqb x y && bytes_list_eqb a' b' | _, _ => false end.
+
+Definition dclass (d : dres) : oclass :=
+  match d with DOk _ => COk | DMissing _ _ => CMissing | DErr x => class_of (@Err unit x) | DPanic => CPanic end.
+
+Definition dec_agrees (m : dres) (o : dec_obs) : bool :=
+  match m, o with
+  | DOk v, DecOk v' => value_eqb v v'
+  | DMissing fs v, DecMissing fs' v' => bytes_list_eqb fs fs' && value_eqb v v'
+  | m, DecFail cl => oclass_eqb (dclass m) cl
+  | _, _ => false
+  end.
+
 Fixpoint check_obs (c : case) (fmt : nat) (l : list (enc_obs * dec_obs)) : bool :=
   match l with
   | [] => true
-  | (eo, _) :: r => enc_agrees (model_enc c fmt) eo && check_obs c (S fmt) r
+  | (eo, dobs) :: r =>
+      enc_agrees (model_enc c fmt) eo
+      && (match eo with EncOk b => dec_agrees (model_dec c fmt b) dobs | EncFail _ => true end)
+      && check_obs c (S fmt) r
   end.
 
 Definition check_case (c : case) : bool := check_obs c 0 (c_obs c).
 
-Definition model_out (c : case) : list (res bytes) := map (model_enc c) (seq 0 (length (c_obs c))).
+Definition model_out (c : case) : list (res bytes * option dres) :=
+  map (fun i => (model_enc c i,
+                 match nth_error (c_obs c) i with Some (EncOk b, _) => Some (model_dec c i b) | _ => None end))
+      (seq 0 (length (c_obs c))).
 
 Fixpoint mismatches_from (i : nat) (l : list case) : list nat :=
   match l with
